@@ -53,6 +53,7 @@ def shards(tier):
     out.append({"part": "one", "kind": "str", "tier": tier, "n": 3, "first": None, "alpha": [None, "a", "a\x00", "b"]})
     # object keys whose order as text differs from their order as values (10 < 2 and -3 > -20 as text)
     out.append({"part": "one", "kind": "obj", "tier": tier, "n": 3, "first": None, "alpha": [None, 2, 10, -3, -20]})
+    out.append({"part": "one", "kind": "obj", "tier": tier, "n": 3, "first": None, "alpha": [None, 1, 1.0, True, 2, 0.5]})
     for k1 in KINDS:
         for k2 in KINDS:
             out.append({"part": "two", "kinds": [k1, k2], "n": 4 if big else 3})
@@ -75,7 +76,8 @@ def shards(tier):
     for kind in KINDS:
         for length in ([17, 40, 1025] if not big else [17, 40, 130, 300, 1025, 65537]):
             out.append({"part": "long", "kind": kind, "length": length, "period": (3 if not big else 4) if length < 1000 else 2})
-    return out
+    from mc import harness
+    return harness.with_array_forms(out, tier, lambda sh: sh["part"] == "one" and sh.get("first") is None and "alpha" not in sh)
 
 
 def payload_cols(n):
